@@ -94,6 +94,40 @@ fn index_cases(rng: &mut Rng, thorough: bool) -> Vec<Case> {
             }
         }
     }
+    // LITERAL indices on slices: there is no compile-time length, so the run-time check is the only
+    // one (a literal index at or past the length must abort exactly like a computed one)
+    for n in [1u64, 3] {
+        let lit: Vec<String> = (0..n).map(|i| elem_val(i).to_string()).collect();
+        for k in [0, n - 1, n, n + 1, n + 4] {
+            for write in [false, true] {
+                let access = if write {
+                    format!("    a[{k}] = 99;\n    core.println(\"AFTER\");\n")
+                } else {
+                    format!("    x := a[{k}];\n    core.println(\"AFTER\");\n    core.println(x);\n")
+                };
+                let src = format!(
+                    "{HDR}main :: () {{\n    arr : [{n}]i32 = i32.[{}];\n    a : []i32 = arr;\n    core.println(\"BEFORE\");\n{access}}}\n",
+                    lit.join(", ")
+                );
+                let oob = k >= n;
+                let mut lines = vec!["BEFORE".to_string()];
+                if !oob {
+                    lines.push("AFTER".into());
+                    if !write {
+                        lines.push(elem_val(k).to_string());
+                    }
+                }
+                out.push(Case {
+                    what: format!("slice-literal{} []i32 len {n} index literal {k}", if write { "-write" } else { "-read" }),
+                    src,
+                    req: format!("C10 slice 64 5000 8 {n} 1000 4 4 {} {k}", write as u8),
+                    expect_abort: oob,
+                    expect_lines: lines,
+                    abort_word: "out of bounds",
+                });
+            }
+        }
+    }
     // nested arrays: m[i][j]
     for (i, j) in [(0u64, 0u64), (1, 2), (2, 0), (0, 3), (1, 7), (6, 1)] {
         let src = format!(
